@@ -12,6 +12,17 @@ Phases (one kind of task each):
   interp   a constant attribute (scalar and 3-vector, dense and sparse) pushed through every interpolation /
            scatter / average function and weighting mode, in several blackboard states
   vol...   the same for tetrahedral meshes
+  unit     (opts / interp / vol_opts tasks with 'units', partners 'unit_of_length') the same mesh expressed in the units of
+           length 2^-20 and 2^20: every quantity scales with its power of the factor (lengths s, areas s^2, volumes s^3,
+           angles / cotangents / normals / degrees / constant interpolation unchanged), against the oracle on the scaled
+           coordinates and against the base mesh; a case already wrong in the base unit is left to its own clause
+  deform   histories on ONE mesh object: quantities requested persistently, the geometry changed in place by a map that is
+           not a similarity (transform.scale_xyz with unequal factors, one vertex moved through the container), the same
+           functions called again: an explicit call describes the CURRENT geometry. Quantities derived from other stored
+           attributes are judged only after those inputs were requested again (the library reuses them by design)
+  convex   every strictly convex lattice polygon of the 4x4 grid (one per symmetry class: trapezoids, kites, irregular
+           quads, pentagons ... the octagon) under the integer affine maps, listed from every corner in both orientations,
+           alone and glued to a triangle: areas, normals, barycentres, angles, sums and means against the exact oracle
 """
 from __future__ import annotations
 import itertools, math
@@ -22,11 +33,14 @@ from mc import exact as X
 
 ID = "C07"
 TECHNIQUE = ("bounded-exhaustive input families x full option cross product vs exact rational oracle; metamorphic "
-             "partners (rotations, translations, scales, relabelings); BFS over request orders of persistent attributes")
+             "partners (rotations, translations, scales, units of length, relabelings); BFS over request orders of persistent "
+             "attributes; request / deform in place / request again histories")
 RULE = ("inputs: every labelled oriented manifold triangle complex on <=5 vertices, one per isomorphism class on 6 "
         "(thorough: all labelled), ZOO specimens incl. planar-faced quad/polygon polyhedra under integer affine maps, "
         "every labelled tetrahedral complex on <=5 vertices + classes on 6; x coordinate alphabets (moment curve, "
-        "lattice, generic); x every option vector of every function; x partners; x blackboard states reached by BFS. "
+        "lattice, generic); x every option vector of every function; x partners; x blackboard states reached by BFS; "
+        "x units of length {1, 2^-20, 2^20}; x histories request / in-place deformation / request again; every strictly "
+        "convex lattice polygon of the 4x4 grid (one per symmetry class) x 3 affine maps x every listing rotation x both orientations. "
         "A case = one (mesh, coordinates, phase, option vector / partner / blackboard state); non-trivial = the mesh "
         "has at least one non-degenerate face or cell")
 ASSUMPTIONS = [
@@ -38,10 +52,15 @@ ASSUMPTIONS = [
     "vertices where the weighted normal sum is shorter than 1e-3 x (sum of weights) are excluded and counted",
     "float comparisons: relative 1e-9 (+1e-12 x length unit^dimension)",
     "mesh.edges / volume mesh.faces are taken from the library (construction is C02/C03's subject); their SET is checked against the face/cell list",
+    "after an in-place deformation only explicit calls are judged, and a quantity that the library derives from other stored attributes (cotangent from 'angles', cotan_weights from 'cotan', angle_defects from 'angles', vertex_normals from face 'normals', sums and means from 'area' / 'volume') only after those were requested again; the new coordinates are read back from the mesh (transform.* itself is not C07's subject); default config.display_duplicate_attribute_warning only",
+    "units of length are powers of two (2^-20, 2^20) so that the scaled coordinates are exact; face_barycenter = mean of the corners (as documented), polygon area of a planar convex polygon = shoelace / vector area",
 ]
 BOUNDS = {
-    "quick": "full option cross product (persistent x dense x zero_border x interpolation x custom normals x n) on one representative per isomorphism class of SURF triangles n<=6 (38) x {lattice, generic, moment} + ZOO (grids and holey grids under affine maps, prisms, cube/pyritohedron/cuboctahedron/truncated octahedron/prisms/pyramids x 3 integer affine maps + bordered variants, octa/icosahedron, tori); every labelled SURF n<=5 (434) x {lattice, generic} with default options; partners: 24 rotations (alternating between 2 translations), scales 2 and 1/2, all relabelings for n<=5 (generic), transpositions + face re-listing otherwise; blackboard BFS depth 2 (x both values of config.display_duplicate_attribute_warning) on 31 meshes; constant interpolation on 24 meshes x 3 blackboard pre-states; TET n<=5 all (27) + TET(6) classes (16) x 3 alphabets, partners, blackboard BFS depth 3",
-    "thorough": "quick + full option cross product on every labelled SURF n<=5 x 3 alphabets; all labelled SURF(6) triangle complexes (12934) x {generic, lattice} and all labelled TET(6) (2422) x {generic, moment} against the oracle (default options); partners with all 24 x 2 rigid motions on every alphabet and larger ZOO; blackboard BFS depth 3 on all class representatives (volumes: depth 4); 5 blackboard pre-states for interpolation",
+    "quick": "full option cross product (persistent x dense x zero_border x interpolation x custom normals x n) on one representative per isomorphism class of SURF triangles n<=6 (38) x {lattice, generic, moment} + ZOO (grids and holey grids under affine maps, prisms, cube/pyritohedron/cuboctahedron/truncated octahedron/prisms/pyramids x 3 integer affine maps + bordered variants, octa/icosahedron, tori); every labelled SURF n<=5 (434) x {lattice, generic} with default options; partners: 24 rotations (alternating between 2 translations), scales 2 and 1/2, all relabelings for n<=5 (generic), transpositions + face re-listing otherwise; blackboard BFS depth 2 (x both values of config.display_duplicate_attribute_warning) on 31 meshes; constant interpolation on 24 meshes x 3 blackboard pre-states; TET n<=5 all (27) + TET(6) classes (16) x 3 alphabets, partners, blackboard BFS depth 3; "
+             "units 2^-20 and 2^20: as two more partners of every partners task (surfaces and volumes), full option cross product vs oracle on the class representatives n<=5 (generic) + 11 ZOO meshes and on every TET representative (generic), constant interpolation in both units on every interp mesh (empty blackboard); "
+             "deformation histories (3 deformations: scale_xyz(2,1,1/2), scale_xyz(1,4,1), last vertex moved by (1,-2,3)) x {one function alone, every function} on the 31 BFS meshes + 3 generic-quad grids and on the TET representatives n>=5; "
+             "convex lattice polygons of the 4x4 grid: all 89 quad classes, the 5 pentagon/hexagon classes of the 3x3 grid and every 4th other class (126 shapes), each under 3 affine maps (all 2k listings under one, 2 under the others) alone and glued to a triangle; ZOO also contains trapezoid / irregular-quad grids",
+    "thorough": "quick + full option cross product on every labelled SURF n<=5 x 3 alphabets; all labelled SURF(6) triangle complexes (12934) x {generic, lattice} and all labelled TET(6) (2422) x {generic, moment} against the oracle (default options); partners with all 24 x 2 rigid motions on every alphabet and larger ZOO; blackboard BFS depth 3 on all class representatives (volumes: depth 4); 5 blackboard pre-states for interpolation; unit-of-length option cross product on all class representatives x {generic, lattice}, both units x 2 pre-states for interpolation, TET x {generic, moment}; deformation histories on all BFS meshes of the tier; all 219 convex lattice polygon classes of the 4x4 grid",
 }
 
 ALPHAS = ("lattice", "generic", "moment")
@@ -87,6 +106,16 @@ def _surf_zoo(tier):
     p, f = F.icosahedron(); out.append(("icosahedron", p, f))
     p, f = F.torus_grid(3, 4); out.append(("torus3x4", p, f))
     p, f = F.csaszar_torus(); out.append(("csaszar", p, f))
+    # generic planar convex quads (no parallelogram among them): a perspective image of the grid (rows of different
+    # widths: trapezoids) and the grid with its inner vertex moved (irregular quads); affine maps keep them planar and convex
+    p, f = F.grid(3, 3, "quad")
+    for aff in ("id", "skew"):
+        out.append((f"grid3x3quad-trapezoids:{aff}", L.affine([(i * (j + 2), 3 * j, 0) for i, j, _ in p], aff), f))
+    q = [(3 * i, 3 * j, 0) for i, j, _ in p]
+    q[4] = (4, 2, 0)
+    out.append(("grid3x3quad-irregular:shear", L.affine(q, "shear"), f))
+    p, f = F.grid(3, 3, "mixed")
+    out.append(("grid3x3mixed-trapezoids:shear", L.affine([(i * (j + 2), 3 * j, 0) for i, j, _ in p], "shear"), f))
     cnt = 0
     for mask, p, f in F.holey_grids(3, 3, "tri", max_removed=2):
         if cnt % (3 if tier == "quick" else 1) == 0:
@@ -138,7 +167,8 @@ def _batches(items, size):
 
 ZOO_KEY = ("cube:shear", "pyritohedron-open:shear", "cuboctahedron:skew", "pyramid5:shear", "grid2x3mixed:shear", "octahedron:skew",
            "annulus4a", "prism6-open:shear")
-ZOO_PARTNERS_QUICK = ZOO_KEY + ("grid3x3quad:id", "grid2x3tri:shear", "truncated_octahedron:id", "pyritohedron:skew", "tetrahedron",
+ZOO_GENERIC = ("grid3x3quad-trapezoids:skew", "grid3x3quad-irregular:shear", "grid3x3mixed-trapezoids:shear")
+ZOO_PARTNERS_QUICK = ZOO_KEY + ZOO_GENERIC + ("grid3x3quad:id", "grid2x3tri:shear", "truncated_octahedron:id", "pyritohedron:skew", "tetrahedron",
                                 "icosahedron", "torus3x4", "prism5:id", "pyramid4-open:shear", "grid3x3tri:saddle")
 
 
@@ -184,8 +214,24 @@ def tasks(tier):
     # ---- interpolation of constants
     interp_in = [_desc(nm, "generic", n, fl) for nm, n, fl in reps if thorough or n <= 5 or int(nm.split("c")[1]) % 4 == 0] + \
                 [zoo[k] for k in ZOO_KEY[:5] + ("grid3x3quad:id", "annulus3p", "truncated_octahedron:id")]
+    interp_in += [zoo[k] for k in ZOO_GENERIC]
     for b in _batches(interp_in, 2):
-        out.append({"phase": "interp", "meshes": b, "prestates": 5 if thorough else 3})
+        out.append({"phase": "interp", "meshes": b, "prestates": 5 if thorough else 3, "units": list(UNIT_EXPONENTS),
+                    "unit_prestates": 2 if thorough else 1})
+    # ---- unit of length: the full option cross product on the same meshes expressed in the units 2^-20 and 2^20
+    unit_in = [_desc(nm, "generic", n, fl) for nm, n, fl in reps if thorough or n <= 5] + [zoo[k] for k in ZOO_KEY + ZOO_GENERIC]
+    if thorough:
+        unit_in += [_desc(nm, "lattice", n, fl) for nm, n, fl in reps]
+    for b in _batches(unit_in, 3):
+        out.append({"phase": "opts", "meshes": b, "units": list(UNIT_EXPONENTS), "clause": "unit_of_length"})
+    # ---- histories on one mesh object: request, deform in place, request again
+    for m in bfs_in + [zoo[k] for k in ZOO_GENERIC]:
+        out.append({"phase": "deform", "mesh": m})
+    # ---- generic planar convex polygons (every strictly convex lattice polygon of the 4x4 grid, one per symmetry class)
+    shapes = _convex_shapes(tier)
+    nb = 16 if thorough else 8
+    for i in range(nb):
+        out.append({"phase": "convex", "shapes": shapes[i::nb]})
     # ---- volumes
     for alpha in ("moment", "generic", "lattice"):
         items = [(f"{nm}:{alpha}", L.pts_to_json(L.coords(alpha, n)), [list(c) for c in cl]) for nm, n, cl in _tet_small()]
@@ -202,6 +248,13 @@ def tasks(tier):
         if n >= 5:
             out.append({"phase": "vol_bfs", "mesh": (f"{nm}:generic", L.pts_to_json(L.coords("generic", n)), [list(c) for c in cl]),
                         "depth": depth + 1})
+    for alpha in (("generic", "moment") if thorough else ("generic",)):
+        items = [(f"{nm}:{alpha}", L.pts_to_json(L.coords(alpha, n)), [list(c) for c in cl]) for nm, n, cl in _tet_reps()]
+        for b in _batches(items, 6):
+            out.append({"phase": "vol_opts", "meshes": b, "units": list(UNIT_EXPONENTS), "clause": "unit_of_length"})
+        for it in items:
+            if len(it[1]) >= 5:
+                out.append({"phase": "vol_deform", "mesh": it})
     # ---- thorough: whole labelled families on 6 vertices against the oracle, default options
     if thorough:
         for alpha in ("generic", "lattice"):
@@ -250,11 +303,24 @@ class Collector:
         self.rep, self.mclass, self.base = rep, mclass, base_detail
         self.ran, self.fails = {}, {}
         self.ctx = {}          # transient context (e.g. the history) copied into details at failure time
+        self.calls_failed = 0  # number of fail() calls (a repeated option vector is stored once)
+        self.baseline = False  # True: failures are only remembered (the case is reported by another phase)
+        self.wrong_in_base_unit = set()
 
     def run(self, callee, opts):
-        self.ran.setdefault(callee, set()).add(_okey(opts))
+        if not self.baseline:
+            self.ran.setdefault(callee, set()).add(_okey(opts))
 
     def fail(self, subcheck, callee, kind, opts, detail):
+        self.calls_failed += 1
+        # a case that is already wrong in the base unit of length is not a unit-of-length defect: reported once, by its own clause
+        k0 = (callee, _okey({k: v for k, v in opts.items() if k != "unit"}))
+        if opts.get("unit") in (None, "2^0"):
+            self.wrong_in_base_unit.add(k0)
+        elif k0 in self.wrong_in_base_unit:
+            return
+        if self.baseline:
+            return
         d = self.fails.setdefault((subcheck, callee, kind), {})
         d.setdefault(_okey(opts), dict(self.ctx, **dict(detail, options=dict(opts))))
 
@@ -424,9 +490,12 @@ def _compare(vtype, dim, geo, got, want):
     return L.vclose(got, want, unit=1.0)
 
 
+LIB_KWARGS = ("persistent", "dense", "zero_border", "interpolation")
+
+
 def _call_surface(M, m, fname, opts, geo):
     A = M.attributes
-    kw = {k: v for k, v in opts.items() if k not in ("custom", "duplicate_attribute_flag", "partner") and not k.startswith("has_")}
+    kw = {k: v for k, v in opts.items() if k in LIB_KWARGS}      # every other key only labels the case (history, unit, shape ...)
     if opts.get("custom"):
         kw["custom_fnormals"] = _custom_attr(M, opts["custom"], geo.nf)
     return call(getattr(A, fname), m, **kw)
@@ -510,12 +579,12 @@ def _n_classes(N):
     return out
 
 
-def check_surface_globals(col, M, m, geo, rep, extra=None, rebuild=None, only=None):
+def check_surface_globals(col, M, m, geo, rep, extra=None, rebuild=None, only=None, clause="definition"):
     """euler_characteristic, mean_edge_length, mean_face_area, total_area, barycenter. mean_face_area stores an
     'area' attribute as a side effect: `rebuild()` (if given) must return a mesh in the same blackboard state."""
     A = M.attributes
     extra = extra or {}
-    def run(fname, opts, fn, want, unit, vec=False, clause="definition"):
+    def run(fname, opts, fn, want, unit, vec=False, clause=clause):
         if only is not None and fname not in only:
             return
         opts = dict(opts, **extra)
@@ -561,33 +630,60 @@ def _bb_key(m, containers=("vertices", "edges", "faces", "face_corners", "cells"
     return h64(repr(parts)), tuple((p[0], p[1]) for p in parts)
 
 
+UNIT_EXPONENTS = (-20, 20)        # the same mesh expressed in a unit of length 2^-e (exact in binary floating point)
+
+
+def _unit_pts(pts, e):
+    return [[float(x) * 2.0 ** e for x in p] for p in pts] if e else pts
+
+
+def _unit_tag(e):
+    return {} if e is None else {"unit": "2^%d" % e}
+
+
 def run_opts(task, rep: Report):
+    """Full option cross product against the oracle. With task['units'] (exponents e) the whole cross product is repeated
+    on the same mesh with every coordinate multiplied by 2^e (clause 'unit_of_length': lengths x s, areas x s^2, angles,
+    cotangents, normals, degrees unchanged - the oracle is evaluated on the scaled coordinates)."""
     import mouette as M
+    units = ([0] + list(task["units"])) if task.get("units") else [None]
+    clause = task.get("clause", "definition")
     for desc in task["meshes"]:
         desc = (desc[0], desc[1], [tuple(f) for f in desc[2]])
-        m0 = _build_surface(desc)
-        geo = _geo_of(m0, desc, rep)
-        if geo is None:
+        col = None
+        for e in units:
+            d = desc if e is None else (desc[0], _unit_pts(desc[1], e), desc[2])
+            tag = _unit_tag(e)
+            m0 = _build_surface(d)
+            geo = _geo_of(m0, d, rep)
+            if geo is None:
+                continue
+            if col is None:
+                col = Collector(rep, _mclass(geo), {"mesh": desc[0], "points": desc[1], "faces": [list(f) for f in desc[2]]})
+            col.baseline = (e == 0)        # base unit inside a unit-of-length task: only remembers what is wrong there already
+            col.ctx = {} if e is None else {"points_multiplied_by": 2.0 ** e}
+            rep.traces += 1
+            rep.flag("closed" if geo.closed else "bordered")
+            rep.flag("class:" + _mclass(geo).split(":")[0])
+            if e:
+                rep.flag("unit:2^%d" % e)
+            if geo.nondegenerate():
+                rep.case(("opts", d[1], desc[2]))
+            shared = m0
+            k0 = _bb_key(shared)[0]
+            for fname, cont, vtype, dim, tri_only in SURF_SPECS:
+                for opts in _option_vectors(fname):
+                    if opts["persistent"]:
+                        m = _build_surface(d)             # fresh blackboard for every persistent call
+                    else:
+                        m = shared
+                    check_surface_function(col, M, m, geo, fname, dict(opts, **tag), rep, clause=clause)
+                    if not opts["persistent"] and _bb_key(shared)[0] != k0:
+                        rep.count("nonpersistent_call_changed_blackboard:" + fname)
+                        shared = _build_surface(d)
+            check_surface_globals(col, M, _build_surface(d), geo, rep, extra=tag, rebuild=lambda: _build_surface(d), clause=clause)
+        if col is None:
             continue
-        col = Collector(rep, _mclass(geo), {"mesh": desc[0], "points": desc[1], "faces": [list(f) for f in desc[2]]})
-        rep.traces += 1
-        rep.flag("closed" if geo.closed else "bordered")
-        rep.flag("class:" + _mclass(geo).split(":")[0])
-        if geo.nondegenerate():
-            rep.case(("opts", desc[1], desc[2]))
-        shared = m0
-        k0 = _bb_key(shared)[0]
-        for fname, cont, vtype, dim, tri_only in SURF_SPECS:
-            for opts in _option_vectors(fname):
-                if opts["persistent"]:
-                    m = _build_surface(desc)             # fresh blackboard for every persistent call
-                else:
-                    m = shared
-                check_surface_function(col, M, m, geo, fname, opts, rep)
-                if not opts["persistent"] and _bb_key(shared)[0] != k0:
-                    rep.count("nonpersistent_call_changed_blackboard:" + fname)
-                    shared = _build_surface(desc)
-        check_surface_globals(col, M, _build_surface(desc), geo, rep, rebuild=lambda: _build_surface(desc))
         col.flush()
         if len(rep.samples) < 2:
             rep.sample({"phase": "opts", "mesh": desc[0], "faces": desc[2], "option_vectors": sum(len(_option_vectors(s[0])) for s in SURF_SPECS)})
@@ -808,6 +904,10 @@ def run_partners(task, rep: Report):
             partner("rigid_motion", f"R{ri}T{ti}", L.transform_points(pts, R, 1, t), faces, ident, R, 1, t)
     for s in (2, X.Fr(1, 2)):
         partner("scale", f"S{s}", L.transform_points(pts, IDENT, s, (0, 0, 0)), faces, ident, IDENT, s, (0, 0, 0))
+    for e in UNIT_EXPONENTS:          # another unit of length: every quantity scales with its power of 2^e, however small or large
+        s = X.Fr(2) ** e
+        partner("unit_of_length", f"U{e}", L.transform_points(pts, IDENT, s, (0, 0, 0)), faces, ident, IDENT, s, (0, 0, 0))
+        rep.flag("unit:2^%d" % e)
     for perm in _relabelings(n, task["relabel"]):
         P2 = [None] * n
         for v in range(n):
@@ -1045,14 +1145,21 @@ def run_interp(task, rep: Report):
                 ("scatter_faces_to_corners", "f", "c", [None], None),
                 ("average_corners_to_vertices", "c", "v", ["uniform", "angle", "sum"], lambda i: nfaces_at[i]),
                 ("average_corners_to_faces", "c", "f", ["uniform", "angle", "sum"], lambda i: len(geo.faces[i]))]
-        for pre in PRESTATES[:int(task.get("prestates", 5))] if int(task.get("prestates", 5)) != 3 else (PRESTATES[0], PRESTATES[2], PRESTATES[4]):
+        prestates = PRESTATES[:int(task.get("prestates", 5))] if int(task.get("prestates", 5)) != 3 else (PRESTATES[0], PRESTATES[2], PRESTATES[4])
+        unit_prestates = int(task.get("unit_prestates", 1))      # the other units of length are crossed with the first k blackboard pre-states
+        for ip, pre in enumerate(prestates):
+          for e in [0] + (list(task.get("units") or []) if ip < unit_prestates else []):
             names = None
+            upts = _unit_pts(desc[1], e)
+            udesc = (desc[0], upts, desc[2])
+            if e:
+                rep.flag("interp_unit:2^%d" % e)
             for fname, src, dst, weights, mult in plan:
                 for w in weights:
                     for cname, const in CONSTS.items():
                         for din in (True, False):
                             for dout in (True, False):
-                                m = _build_surface(desc)
+                                m = _build_surface(udesc)
                                 for ev in pre:
                                     getattr(A, ev[0])(m, persistent=True, **ev[1])
                                 if names is None:
@@ -1060,15 +1167,16 @@ def run_interp(task, rep: Report):
                                 size = 3 if cname == "vector" else 1
                                 a_in = _mk_attr(M, din, sizes[src], size); _fill(M, a_in, sizes[src], const)
                                 a_out = _mk_attr(M, dout, sizes[dst], size)
-                                opts = {"weight": w, "value": cname, "in_dense": din, "out_dense": dout,
+                                opts = {"weight": w, "value": cname, "in_dense": din, "out_dense": dout, "unit": "2^%d" % e,
                                         "has_area": ("faces", "area") in names, "has_angles": ("face_corners", "angles") in names}
                                 args = (m, a_in, a_out) + ((w,) if w is not None else ())
+                                col.ctx = {"points_multiplied_by": 2.0 ** e} if e else {}
                                 for reuse in (False, True):
                                     o2 = dict(opts, reused_output=reuse)
                                     col.run(fname, o2)
                                     o = call(getattr(A, fname), *args)
                                     rep.transitions += 1
-                                    sub = "C07.interpolate.reused_output" if reuse else "C07.interpolate.constant"
+                                    sub = "C07.interpolate.unit_of_length" if e else "C07.interpolate.reused_output" if reuse else "C07.interpolate.constant"
                                     if not o.ok:
                                         col.fail(sub, fname, exc_kind(o), o2, {"msg": o.msg}); break
                                     r = call(_read, o.value if o.value is not None else a_out, sizes[dst])
@@ -1082,7 +1190,7 @@ def run_interp(task, rep: Report):
                                         if not good:
                                             col.fail(sub, fname, "mismatch:value", o2, {"element": i, "got": got, "want": want}); break
                                     rep.outcome(fname, repr(r.value[0])[:40] if r.value else "empty")
-            rep.case(("interp", desc[1], desc[2], pre))
+            rep.case(("interp", desc[1], desc[2], pre, e))
         rep.traces += 1
         col.flush()
 
@@ -1136,13 +1244,13 @@ def vol_want(g, fname, i):
     raise KeyError(fname)
 
 
-def check_volume_function(col, M, m, g, fname, opts, rep):
+def check_volume_function(col, M, m, g, fname, opts, rep, clause="definition"):
     _, cont, vtype, dim = VSPEC[fname]
     col.run(fname, opts)
-    kw = {k: v for k, v in opts.items() if not k.startswith("has_")}
+    kw = {k: v for k, v in opts.items() if k in LIB_KWARGS}
     o = call(getattr(M.attributes, fname), m, **kw)
     rep.transitions += 1
-    sub = f"C07.{fname}.definition"
+    sub = f"C07.{fname}.{clause}"
     if not o.ok:
         col.fail(sub, fname, exc_kind(o), opts, {"msg": o.msg}); return None
     if o.value is None:
@@ -1163,21 +1271,22 @@ def check_volume_function(col, M, m, g, fname, opts, rep):
     return r.value
 
 
-def check_volume_globals(col, M, m, g, rep, extra=None, rebuild=None):
+def check_volume_globals(col, M, m, g, rep, extra=None, rebuild=None, clause="definition", common=None):
     A = M.attributes
     def run(fname, opts, fn, want, unit, vec=False):
         opts = dict(opts, **(extra or {}).get(fname, {}))
+        opts.update(common or {})
         col.run(fname, opts)
         o = call(fn)
         rep.transitions += 1
         if not o.ok:
-            col.fail(f"C07.{fname}.definition", fname, exc_kind(o), opts, {"msg": o.msg}); return
+            col.fail(f"C07.{fname}.{clause}", fname, exc_kind(o), opts, {"msg": o.msg}); return
         if want is None:
             return
         rep.evaluations += 1
         got = _py(o.value)
         if not (L.vclose(got, want, unit=unit) if vec else L.close(got, want, unit=unit)):
-            col.fail(f"C07.{fname}.definition", fname, "mismatch:value", opts, {"got": got, "want": want})
+            col.fail(f"C07.{fname}.{clause}", fname, "mismatch:value", opts, {"got": got, "want": want})
     run("barycenter", {}, lambda: A.barycenter(m), L.fl(X.barycenter(g.P)), g.M, vec=True)
     ne, nf = len(g.edges), len(g.faces)
     for label, n in _n_classes(ne):
@@ -1195,22 +1304,29 @@ def check_volume_globals(col, M, m, g, rep, extra=None, rebuild=None):
 
 def run_vol_opts(task, rep: Report, default_only=False):
     import mouette as M
+    units = ([0] + list(task["units"])) if task.get("units") else [None]
+    clause = task.get("clause", "definition")
     for desc in task["meshes"]:
-        m0 = _build_volume(desc)
-        g = _vgeo_of(m0, desc, rep)
-        if g is None:
-            continue
         col = Collector(rep, "tet", {"mesh": desc[0], "points": desc[1], "cells": desc[2]})
-        rep.traces += 1
-        if all(g.vol6(c) != 0 for c in range(g.nc)):
-            rep.case(("vol", desc[1], desc[2]))
-        else:
-            rep.count("volume_meshes_with_degenerate_cell")
-        for fname, cont, vtype, dim in VOL_SPECS:
-            for opts in ([dict(persistent=False, dense=True)] if default_only else PD):
-                m = _build_volume(desc) if opts["persistent"] else m0
-                check_volume_function(col, M, m, g, fname, opts, rep)
-        check_volume_globals(col, M, _build_volume(desc), g, rep, rebuild=(lambda: _build_volume(desc)))
+        for e in units:
+            d = desc if e is None else (desc[0], _unit_pts(desc[1], e), desc[2])
+            tag = _unit_tag(e)
+            m0 = _build_volume(d)
+            g = _vgeo_of(m0, d, rep)
+            if g is None:
+                continue
+            col.baseline = (e == 0)
+            col.ctx = {} if e is None else {"points_multiplied_by": 2.0 ** e}
+            rep.traces += 1
+            if all(g.vol6(c) != 0 for c in range(g.nc)):
+                rep.case(("vol", d[1], desc[2]))
+            else:
+                rep.count("volume_meshes_with_degenerate_cell")
+            for fname, cont, vtype, dim in VOL_SPECS:
+                for opts in ([dict(persistent=False, dense=True)] if default_only else PD):
+                    m = _build_volume(d) if opts["persistent"] else m0
+                    check_volume_function(col, M, m, g, fname, dict(opts, **tag), rep, clause=clause)
+            check_volume_globals(col, M, _build_volume(d), g, rep, rebuild=(lambda: _build_volume(d)), clause=clause, common=tag)
         col.flush()
 
 
@@ -1305,6 +1421,9 @@ def run_vol_partners(task, rep: Report):
                 partner("rigid_motion", f"R{ri}T{ti}", L.transform_points(pts, R, 1, t), cells, ident, R, 1, t)
     for s in (2, X.Fr(1, 2)):
         partner("scale", f"S{s}", L.transform_points(pts, IDENT, s, (0, 0, 0)), cells, ident, IDENT, s, (0, 0, 0))
+    for e in UNIT_EXPONENTS:
+        s = X.Fr(2) ** e
+        partner("unit_of_length", f"U{e}", L.transform_points(pts, IDENT, s, (0, 0, 0)), cells, ident, IDENT, s, (0, 0, 0))
     for perm in _relabelings(n, task["relabel"]):
         P2 = [None] * n
         for v in range(n):
@@ -1404,6 +1523,262 @@ def run_vol_labelled(task, rep: Report):
     run_vol_opts({"meshes": meshes}, rep, default_only=True)
 
 
+# ================================================================================================ phase: deform
+# History on ONE mesh object: quantities are requested (persistent=True), the geometry is then changed IN PLACE by a map
+# that is not a similarity, and the same functions are called again. An explicit call of a quantity function describes
+# the CURRENT geometry (the library recomputes: with the default configuration a persistent call replaces or refills the
+# stored attribute). Quantities that the library derives from OTHER stored attributes (cotangent <- 'angles',
+# cotan_weights <- 'cotan', angle_defects <- 'angles', vertex_normals <- face 'normals', sums and means <- 'area') reuse
+# them by design: they are judged only after those inputs have themselves been requested again on the new geometry.
+DEFORMATIONS = [("scale_xyz", [2.0, 1.0, 0.5]), ("scale_xyz", [1.0, 4.0, 1.0]), ("move_vertex", [1.0, -2.0, 3.0])]
+PRODUCER = {("face_corners", "angles"): "corner_angles", ("face_corners", "cotan"): "cotangent",
+            ("faces", "normals"): "face_normals", ("faces", "area"): "face_area"}
+INPUT_ORDER = [("face_corners", "angles"), ("face_corners", "cotan"), ("faces", "normals"), ("faces", "area")]
+DEFORM_ORDER = ["degree", "edge_length", "edge_middle_point", "face_area", "face_normals", "face_barycenter", "face_circumcenter",
+                "triangle_aspect_ratio", "corner_angles", "cotangent", "cotan_weights", "angle_defects", "vertex_normals"]
+CLAUSE_DEFORM = "recomputed_after_deformation"
+
+
+def _variants(fname):
+    if fname == "angle_defects":
+        return [{"zero_border": False}, {"zero_border": True}]
+    if fname == "vertex_normals":
+        return [{"interpolation": w} for w in ("uniform", "area", "angle")]
+    return [{}]
+
+
+def _deform(M, m, d):
+    kind, a = d
+    if kind == "scale_xyz":
+        M.transform.scale_xyz(m, *a)
+    else:                                     # one vertex moved through the container API
+        v = len(m.vertices) - 1
+        m.vertices[v] = m.vertices[v] + M.Vec(*a)
+
+
+def _points_now(m):
+    return [[float(x) for x in m.vertices[i]] for i in range(len(m.vertices))]
+
+
+def _nfails(col):
+    return col.calls_failed
+
+
+def _inputs_of(fname):
+    own = STORED.get(fname)
+    return [ca for ca in INPUT_ORDER if ca in RELEVANT.get(fname, ()) and ca != own]
+
+
+def run_deform(task, rep: Report):
+    import mouette as M
+    A = M.attributes
+    name, pts, faces = task["mesh"]
+    faces = [tuple(f) for f in faces]
+    desc = (name, pts, faces)
+    geo0 = _geo_of(_build_surface(desc), desc, rep)
+    if geo0 is None:
+        return
+    col = Collector(rep, _mclass(geo0), {"mesh": name, "points": pts, "faces": [list(f) for f in faces]})
+    fnames = [f for f in DEFORM_ORDER if geo0.tri or not SPEC[f][4]]
+    scratch = Collector(rep, _mclass(geo0), {})      # calls before the deformation: judged by other clauses, only remembered here
+    scratch.baseline = True
+    rep.traces += 1
+
+    def geometry_after(m, d):
+        _deform(M, m, d)
+        p1 = _points_now(m)
+        g1 = L.SurfGeo(p1, faces, geo0.edges)
+        if p1 == [[float(x) for x in p] for p in pts]:
+            rep.count("deformation_left_the_points_unchanged")
+        if any(g1.corner(c).get("angle") is not None and geo0.corner(c).get("angle") is not None
+               and abs(g1.corner(c)["angle"] - geo0.corner(c)["angle"]) > 1e-3 for c in range(g1.nc)):
+            rep.flag("deformation_changed_an_angle")
+        rep.case(("deform", pts, faces, d))
+        return g1, p1
+
+    for d in DEFORMATIONS:
+        tag = {"deformation": d[0]}
+        # ---- history 'solo': f; deformation; the stored inputs of f requested again; f
+        for fname in fnames:
+            for extra in _variants(fname):
+                m = _build_surface(desc)
+                o0 = dict(extra, persistent=True, dense=True)
+                if fname == "vertex_normals":
+                    o0["custom"] = None
+                before = _nfails(scratch)
+                check_surface_function(scratch, M, m, geo0, fname, o0, rep)
+                if _nfails(scratch) != before:
+                    rep.count("deform_not_judged_wrong_before"); continue  # wrong before any deformation: the 'definition' clause reports it
+                g1, p1 = geometry_after(m, d)
+                hist = [[fname, extra], list(d)]
+                inputs_ok = True
+                for ca in _inputs_of(fname):
+                    if getattr(m, ca[0]).has_attribute(ca[1]):
+                        before = _nfails(col)
+                        col.ctx = {"history": hist + [[PRODUCER[ca], {}]], "points_now": p1}
+                        check_surface_function(col, M, m, g1, PRODUCER[ca], dict(persistent=True, dense=True, history="solo", **tag), rep,
+                                               clause=CLAUSE_DEFORM)
+                        hist = hist + [[PRODUCER[ca], {}]]
+                        inputs_ok = inputs_ok and _nfails(col) == before
+                if not inputs_ok:
+                    rep.count("deform_not_judged_input_wrong"); continue    # one defect = one fingerprint
+                col.ctx = {"history": hist + [[fname, extra]], "points_now": p1}
+                opts = dict(extra, persistent=True, dense=True, history="solo", **tag)
+                if fname == "vertex_normals":
+                    opts["custom"] = None
+                check_surface_function(col, M, m, g1, fname, opts, rep, clause=CLAUSE_DEFORM)
+                rep.count("deform_recalls_judged")
+                rep.traces += 1
+        # ---- history 'all': every quantity; deformation; every quantity again (inputs before the quantities derived from them)
+        m = _build_surface(desc)
+        wrong = set()
+        for fname, cont, vtype, dim, tri_only in SURF_SPECS:
+            if fname in fnames:
+                for extra in _variants(fname)[:1]:
+                    o0 = dict(extra, persistent=True, dense=True, **_has_flags(fname, set(_bb_key(m)[1])))
+                    if fname == "vertex_normals":
+                        o0["custom"] = None
+                    before = _nfails(scratch)
+                    check_surface_function(scratch, M, m, geo0, fname, o0, rep)
+                    if _nfails(scratch) != before:
+                        wrong.add(fname); rep.count("deform_not_judged_wrong_before")
+        g1, p1 = geometry_after(m, d)
+        for fname in fnames:
+            for extra in _variants(fname):
+                if fname in wrong or any(PRODUCER[ca] in wrong for ca in _inputs_of(fname)):
+                    call(getattr(A, fname), m, persistent=True, **extra)
+                    rep.count("deform_not_judged_input_wrong"); continue
+                before = _nfails(col)
+                col.ctx = {"history": "every quantity (persistent); %s; every quantity again, ending with %s" % (list(d), fname), "points_now": p1}
+                opts = dict(extra, persistent=True, dense=True, history="all", **tag)
+                if fname == "vertex_normals":
+                    opts["custom"] = None
+                check_surface_function(col, M, m, g1, fname, opts, rep, clause=CLAUSE_DEFORM)
+                rep.count("deform_recalls_judged")
+                if _nfails(col) != before:
+                    wrong.add(fname)
+        if "face_area" not in wrong:
+            col.ctx = {"history": "every quantity (persistent); %s; every quantity again; global" % (list(d),), "points_now": p1}
+            check_surface_globals(col, M, m, g1, rep, extra=dict(history="all", **tag), clause=CLAUSE_DEFORM,
+                                  only=("barycenter", "total_area", "mean_edge_length", "mean_face_area"))
+        rep.traces += 1
+    col.flush()
+
+
+def run_vol_deform(task, rep: Report):
+    import mouette as M
+    A = M.attributes
+    desc = tuple(task["mesh"])
+    g0 = _vgeo_of(_build_volume(desc), desc, rep)
+    if g0 is None:
+        return
+    col = Collector(rep, "tet", {"mesh": desc[0], "points": desc[1], "cells": desc[2]})
+    scratch = Collector(rep, "tet", {})
+    scratch.baseline = True
+    for d in DEFORMATIONS:
+        tag = {"deformation": d[0]}
+        for hist in ("solo", "all"):
+            for fname in ([s[0] for s in VOL_SPECS] if hist == "solo" else [None]):
+                m = _build_volume(desc)
+                before = _nfails(scratch)
+                for f2 in ([fname] if fname else [s[0] for s in VOL_SPECS]):
+                    check_volume_function(scratch, M, m, g0, f2, dict(persistent=True, dense=True), rep)
+                if _nfails(scratch) != before:
+                    rep.count("deform_not_judged_wrong_before"); continue
+                if hist == "all":
+                    call(A.mean_cell_volume, m); call(A.mean_face_area, m)
+                _deform(M, m, d)
+                p1 = _points_now(m)
+                g1 = _vgeo_of(m, (desc[0], p1, desc[2]), rep)
+                if g1 is None:
+                    continue
+                rep.case(("vdeform", desc[1], desc[2], d, fname))
+                if any(abs(g1.volume(c) - g0.volume(c)) > 1e-9 for c in range(g1.nc)):
+                    rep.flag("deformation_changed_a_volume")
+                col.ctx = {"history": [fname or "every quantity", list(d), fname or "every quantity again"], "points_now": p1}
+                bad = False
+                for f2 in ([fname] if fname else [s[0] for s in VOL_SPECS]):
+                    before = _nfails(col)
+                    check_volume_function(col, M, m, g1, f2, dict(persistent=True, dense=True, history=hist, **tag), rep, clause=CLAUSE_DEFORM)
+                    bad = bad or _nfails(col) != before
+                if hist == "all" and not bad:      # the stored 'volume' / 'area' were requested again: sums and means are current
+                    check_volume_globals(col, M, m, g1, rep, clause=CLAUSE_DEFORM, common=dict(history=hist, **tag))
+                rep.traces += 1
+    col.flush()
+
+
+# ================================================================================================ phase: convex
+# Planar strictly convex polygons that are NOT parallelograms / regular: every strictly convex lattice k-gon of the 4x4
+# grid (one per symmetry class: trapezoids, kites, irregular quads, irregular pentagons ... the octagon), embedded by
+# the integer affine maps, listed from every corner and in both orientations, alone and glued to a triangle. Areas,
+# normals, barycentres, corner angles are exact rationals / square roots of rationals in the oracle.
+CONVEX_GRID = 4
+
+
+def _convex_shapes(tier):
+    out = []
+    for k in (4, 5, 6, 7, 8):
+        for i, cyc in enumerate(L.convex_lattice_polygons(CONVEX_GRID, k)):
+            fits3 = max(max(p[0] for p in cyc) - min(p[0] for p in cyc), max(p[1] for p in cyc) - min(p[1] for p in cyc)) <= 2
+            if tier == "thorough" or k == 4 or fits3 or i % 4 == 0:
+                out.append([k * 1000 + i, [list(p) for p in cyc]])
+    return out
+
+
+def run_convex(task, rep: Report):
+    import mouette as M
+    cols = {}
+    affs = sorted(L.AFFINE)
+    for si, cyc in task["shapes"]:
+        cyc = [tuple(p) for p in cyc]
+        k = len(cyc)
+        shape = L.polygon_shape(cyc)
+        kind = "quad" if k == 4 else "poly"
+        rep.flag(f"convex_shape:{kind}:{shape}")
+        rep.count("convex_shapes")
+        for ai, aff in enumerate(affs):
+            full = ai == si % len(affs)      # every listing of the face under one map, the first listing under the other two
+            base = L.affine([(x, y, 0) for x, y in cyc], aff)
+            for rot in range(k if full else 1):
+                for orient in (1, -1):
+                    order = [(rot + orient * i) % k for i in range(k)]
+                    for glue in ((False, True) if rot == 0 else (False,)):
+                        pts, faces = list(base), [tuple(order)]
+                        if glue:        # a triangle across the first side of the polygon, on the other side of it
+                            a, b, c = (X.F(base[order[j]]) for j in (0, 1, 2))
+                            pts.append(tuple(int(x) for x in X.sub(X.add(a, b), c)))
+                            faces.append((order[1], order[0], k))
+                        desc = (f"convex{k}gon#{si % 1000}:{aff}:listing{rot}{'+' if orient > 0 else '-'}{':glued' if glue else ''}",
+                                L.pts_to_json(pts), faces)
+                        m = _build_surface(desc)
+                        geo = _geo_of(m, desc, rep)
+                        if geo is None:
+                            continue
+                        if not all(geo.face(f)["ok"] for f in range(geo.nf)):
+                            rep.count("premise_failed"); rep.notes.append(f"{desc[0]}: not planar strictly convex"); continue
+                        mc = _mclass(geo)
+                        col = cols.get(mc)
+                        if col is None:
+                            col = cols[mc] = Collector(rep, mc, {})
+                        col.ctx = {"mesh": desc[0], "points": desc[1], "faces": [list(f) for f in faces], "polygon_2d": [list(p) for p in cyc], "shape": shape}
+                        rep.traces += 1
+                        rep.case(("convex", desc[1], faces))
+                        tag = {"symmetry": "central" if shape in ("parallelogram", "centrally_symmetric") else "none",
+                               "listing": "first_corner" if rot == 0 else "other_corner", "orientation": "ccw" if orient > 0 else "cw", "map": aff}
+                        for fname, cont, vtype, dim, tri_only in SURF_SPECS:
+                            if tri_only:
+                                continue
+                            for extra in _variants(fname):
+                                opts = dict(extra, persistent=False, dense=True, **tag)
+                                if fname == "vertex_normals":
+                                    opts["custom"] = None
+                                check_surface_function(col, M, m, geo, fname, opts, rep, clause="convex_polygon")
+                        check_surface_globals(col, M, m, geo, rep, extra=tag, clause="convex_polygon",
+                                              only=("barycenter", "total_area", "mean_face_area", "euler_characteristic"))
+    for mc in sorted(cols):
+        cols[mc].flush()
+
+
 # ================================================================================================ entry points
 # ------------------------------------------------------------------------------------- non-convex planar polygons
 # Face quantities (area, normal, barycentre, their sums and means) on planar simple polygons with reflex corners.
@@ -1494,6 +1869,14 @@ def run_task(task, rep: Report):
             rep.notes.append("oracle selftest failed: " + e)
         rep.count("oracle_selftest_failures", len(errs))
         rep.flag("oracle_selftest_ran")
+        # the oracle's polygon area against the shoelace formula on every convex lattice polygon of the family
+        for k in (4, 5, 6, 7, 8):
+            for cyc in L.convex_lattice_polygons(CONVEX_GRID, k):
+                v = X.polygon_area_vector2([X.F((x, y, 0)) for x, y in cyc])
+                if v != (0, 0, L.shoelace2(cyc)) or L.shoelace2(cyc) <= 0:
+                    rep.count("oracle_selftest_failures"); rep.notes.append(f"oracle selftest failed: shoelace {cyc}")
+        if [len(L.convex_lattice_polygons(CONVEX_GRID, k)) for k in (4, 5, 6, 7, 8)] != [89, 84, 41, 4, 1]:
+            rep.count("oracle_selftest_failures"); rep.notes.append("oracle selftest failed: sizes of the convex lattice polygon family")
         assert _opt_class({_okey({"a": 1, "b": 2})}, {_okey({"a": x, "b": y}) for x in (1, 2) for y in (1, 2)}) == "a=1,b=2"
         assert _opt_class({_okey({"a": 1, "b": y}) for y in (1, 2)}, {_okey({"a": x, "b": y}) for x in (1, 2) for y in (1, 2)}) == "a=1"
         assert _opt_class({_okey({"a": x, "b": 1}) for x in (1, 2)}, {_okey({"a": x, "b": y}) for x in (1, 2, 3) for y in (1, 2)}) == "a=1|2,b=1"
@@ -1517,6 +1900,12 @@ def run_task(task, rep: Report):
         run_vol_labelled(task, rep)
     elif ph == "notched":
         run_notched(task, rep)
+    elif ph == "deform":
+        run_deform(task, rep)
+    elif ph == "vol_deform":
+        run_vol_deform(task, rep)
+    elif ph == "convex":
+        run_convex(task, rep)
     else:
         raise ValueError(ph)
 
@@ -1534,6 +1923,17 @@ def finish(tier, rep: Report):
             fails.append(f"filter {c} never fired (its inputs are missing)")
     if rep.counters.get("premise_failed"):
         fails.append("oracle premise failed on some meshes: " + "; ".join(rep.notes[:3]))
+    for f in ("unit:2^-20", "unit:2^20", "interp_unit:2^-20", "interp_unit:2^20", "deformation_changed_an_angle", "deformation_changed_a_volume",
+              "convex_shape:quad:parallelogram", "convex_shape:quad:trapezoid", "convex_shape:quad:kite", "convex_shape:quad:irregular",
+              "convex_shape:poly:irregular", "convex_shape:poly:centrally_symmetric"):
+        if f not in rep.flags:
+            fails.append("coverage flag missing: " + f)
+    if rep.counters.get("convex_shapes") != len(_convex_shapes(tier)) or (tier == "thorough" and rep.counters.get("convex_shapes") != 219):
+        fails.append(f"convex polygon family: {rep.counters.get('convex_shapes')} shapes ran, {len(_convex_shapes(tier))} expected")
+    if rep.counters.get("deformation_left_the_points_unchanged"):
+        fails.append("a deformation left the points unchanged (the history clause would be vacuous)")
+    if not rep.counters.get("deform_recalls_judged"):
+        fails.append("no call after a deformation was judged")
     for kind in ("edge_length", "face_area", "corner_angles", "cotangent", "angle_defects", "vertex_normals", "vol:cell_volume", "degree"):
         if len(rep.outcomes.get(kind, ())) < 2:
             fails.append(f"{kind} produced a single distinct outcome")
